@@ -424,10 +424,12 @@ def reduce(t, axis, keepdims, fold, symfold, sympartial=None):
     proper subset of the symbolic axes (None: unsupported)"""
     if axis is None:
         axes = list(range(t.ndim))
-    elif isinstance(axis, (tuple, list)):
-        axes = [a % t.ndim for a in axis]
     else:
-        axes = [axis % t.ndim]
+        raw = list(axis) if isinstance(axis, (tuple, list)) else [axis]
+        for a in raw:
+            if not isinstance(a, int) or not (-t.ndim <= a < max(t.ndim, 1)):
+                raise ShapeError(f"axis {a} is out of bounds for an array of rank {t.ndim}")
+        axes = [a % t.ndim for a in raw] if t.ndim else []
     caxes = [a for a in axes if not is_sym(t.shape[a])]
     saxes = [a for a in axes if is_sym(t.shape[a])]
     partial = bool(saxes) and set(saxes) != set(t.sym_axes())
@@ -441,7 +443,10 @@ def reduce(t, axis, keepdims, fold, symfold, sympartial=None):
         groups.setdefault(key, []).append(t.at(idx))
     data = []
     for idx in itertools.product(*[range(d) for d in cshape(out_shape_full)]):
-        e = fold(groups[idx])
+        grp = groups.get(idx, [])
+        if not grp:
+            raise Unsupported("reduction over a zero-length axis")
+        e = fold(grp)
         if partial:
             allsym = list(t.sym_axes())
             e = sympartial(e, [t.shape[a] for a in saxes], [allsym.index(a) for a in saxes], len(allsym))
